@@ -32,7 +32,7 @@ def sync():
     os.makedirs(WORK, exist_ok=True)
     sh(f"rsync -a --delete --exclude target --exclude .git /repo/ {REPO}/")
     sh(f"rsync -a --delete --exclude harness/target --exclude replays --exclude evidence --exclude .git --exclude tools/mutants_results.jsonl /verif/ {VROOT}/")
-    for f in ["harness/Cargo.toml"]:
+    for f in ["harness/Cargo.toml", "harness/wincheck/Cargo.toml"]:
         pth = os.path.join(VROOT, f)
         t = open(pth).read().replace('path = "/repo"', f'path = "{REPO}"')
         open(pth, "w").write(t)
